@@ -58,16 +58,23 @@ func refParse(toks []string) (s string, err error) {
 			panic(r)
 		}
 	}()
-	p := &refParser{toks: toks}
-	for _, t := range toks {
-		if t == "module" || t == "import" || t == "include" {
+	// module / import / include directives are not part of the operator grammar: skip them
+	// (each ends at its first `;`; their constant objects contain none)
+	for len(toks) > 0 && (toks[0] == "module" || toks[0] == "import" || toks[0] == "include") {
+		i := 0
+		for i < len(toks) && toks[i] != ";" {
+			i++
+		}
+		if i == len(toks) {
 			panic(errRefUnsupported)
 		}
+		toks = toks[i+1:]
 	}
+	p := &refParser{toks: toks}
 	if len(toks) == 0 {
 		panic(errRefUnsupported)
 	}
-	s = p.pipe()
+	s = p.program()
 	if p.pos != len(p.toks) {
 		panic(errRefSyntax)
 	}
@@ -97,6 +104,18 @@ func isNumberTok(t string) bool {
 	return t != "" && (isDigit(t[0]) || len(t) >= 2 && t[0] == '.' && isDigit(t[1]))
 }
 func isStringStart(t string) bool { return t != "" && t[0] == '"' }
+
+// program := funcdef* (pipe | <nothing>)   — a program may consist of definitions only
+func (p *refParser) program() string {
+	if p.peek() == "def" {
+		fd := p.funcdef()
+		if p.pos == len(p.toks) {
+			return "(" + fd + " <empty>)"
+		}
+		return "(" + fd + " " + p.program() + ")"
+	}
+	return p.pipe()
+}
 
 // pipe := comma [ '|' pipe ]
 func (p *refParser) pipe() string {
